@@ -22,7 +22,7 @@
  "name": "follow_link_buffers",
  "props": ["C06"],
  "level": "U",
- "tier": "wip",
+ "tier": "quick",
  "harness": "h_follow_link",
  "defines": ["EXT2_CUSTOM_MEMORY_ROUTINES", "INL_CAP=66000"],
  "sources": ["lib/ext2fs/symlink.c", "lib/ext2fs/io_manager.c"],
